@@ -1,5 +1,6 @@
 SPECIFICATION Spec
 CONSTANTS
+  KEYBYSENT = TRUE
   OORD <- c_OORD
   SORD <- c_SORD
   AORD <- c_AORD
